@@ -417,3 +417,29 @@ Proof.
   exact (proj1 (local_independent_of_nonlocal_state lz_tree lz_file [[]] lz_call (fun _ => false) (fun x H => ltac:(discriminate H))
                   10 lz_le (EList [EUnscoped [120] (0, 0); EUnscoped [120] (0, 0)]) lz_env _ _ (polls0 None) eq_refl lz_states_agree)).
 Qed.
+
+(* K4 has a SEMANTIC consequence (known finding K4b; on the implementation: strict succeeds, `--lazy` fails with
+   "Cannot add scoped variable after being forced v" when another block defines v later): the hypothesis
+   `shorthands_plain` of checked_exec_phase_forces_nothing cannot be dropped.  The checker accepts
+       attribute sh = x => a = [y for y in x]
+       (..) @m { let @m.v = [1]  node n  attr (n) sh = @m.v }
+   (the comprehension list `x` in the shorthand body is never checked), and the execution phase of the lazy
+   interpreter forces the scoped variable `v`: after it, the cell is SVForced, so a definition of `v` by any later
+   block fails with VariableScopesAlreadyForced — the result depends on the order of the blocks. *)
+Definition k4_l : loc := (0, 0).
+Definition k4_tables : query_tables :=
+  {| qt_stanza_names := [[FULL_MATCH]]; qt_file_names := [FULL_MATCH]; qt_file_quants := [[QOne]]; qt_nullable := [] |}.
+Definition k4_cap : expr := ECapture FULL_MATCH QZero unresolved unresolved k4_l.
+Definition k4_file : file :=
+  {| f_globals := []; f_inherited := [];
+     f_shorthands := [{| sh_name := [115; 104]; sh_var := [120]; sh_vloc := k4_l;
+                         sh_attrs := [Attr [97] (EListComp (EUnscoped [121] k4_l) [121] k4_l (EUnscoped [120] k4_l) k4_l)]; sh_loc := k4_l |}];
+     f_stanzas := [{| st_stmts := [SLet (VarS k4_cap [118] k4_l) (EList [EInt 1]) k4_l;
+                                   SNode (VarU [110] k4_l) [110] k4_l;
+                                   SAttrNode (EUnscoped [110] k4_l) [Attr [115; 104] (EScoped k4_cap [118] k4_l)] k4_l];
+                      st_full_stanza_idx := 0; st_full_file_idx := unresolved; st_start := k4_l |}] |}.
+Example ex_shorthand_forces_cell : exists fl u ls p,
+  check_file k4_tables k4_file = CkOk fl /\ shorthands_plain fl = false /\
+  lexec_matches lz_tree fl config0 [[]] ([] : list unit) (fun _ _ => None) lz_call 20 [(0, [(0, [0])])] (linit []) (polls0 None) = Ok (u, ls, p) /\
+  l_scoped ls = [([118], SVForced [(0, LVar 0)])].
+Proof. do 4 eexists. split; [vm_compute; reflexivity|]. split; [reflexivity|]. split; [vm_compute; reflexivity|reflexivity]. Qed.
